@@ -9,6 +9,7 @@ import (
 	"os"
 	"path/filepath"
 	"regexp"
+	"sort"
 	"strconv"
 	"strings"
 	"time"
@@ -80,21 +81,30 @@ func c14BitsSet(bits []int) string {
 }
 
 var reC14KeyGen = regexp.MustCompile(`<<"KEYGEN", (\d+), (\d+), (\d+)>>`)
+var reC14KeyClass = regexp.MustCompile(`<<"KEYCLASS", (\d+), (\d+), (\d+)>>`)
+
+// c14SizeClass is one residue class of (requested length / 2) modulo 8: the lengths of the plan that fall into it and
+// the number of bits in the top byte of the generator's candidate (which code path forces the second bit).
+type c14SizeClass struct {
+	Class, TopBits int
+	Sizes          []int
+}
 
 // c14RunKeyGenMC model-checks PaillierKeyGen.tla; per requested length: number of safe primes the generator model
-// delivers and number of acceptable ordered pairs (0: the real loop cannot end).
-func c14RunKeyGenMC(bits []int, workers int, timeout time.Duration) (tlc.Result, map[int][2]int, error) {
+// delivers and number of acceptable ordered pairs (0: the real loop cannot end); and the catalogue of size classes
+// of the offered plan sizes.
+func c14RunKeyGenMC(bits, plan []int, workers int, timeout time.Duration) (tlc.Result, map[int][2]int, []c14SizeClass, error) {
 	c14SemTLC <- struct{}{}
 	defer func() { <-c14SemTLC }()
-	wrap := fmt.Sprintf("---- MODULE MC_PaillierKeyGen ----\nEXTENDS PaillierKeyGen\nBitsVal == %s\n====\n", c14BitsSet(bits))
-	cfg := fmt.Sprintf("SPECIFICATION Spec\nCONSTANTS\n  BitsSet <- BitsVal\nINVARIANTS %s\nCHECK_DEADLOCK FALSE\n", c14KeyInvs)
+	wrap := fmt.Sprintf("---- MODULE MC_PaillierKeyGen ----\nEXTENDS PaillierKeyGen\nBitsVal == %s\nPlanVal == %s\n====\n", c14BitsSet(bits), c14BitsSet(plan))
+	cfg := fmt.Sprintf("SPECIFICATION Spec\nCONSTANTS\n  BitsSet <- BitsVal\n  PlanSizes <- PlanVal\nINVARIANTS %s\nCHECK_DEADLOCK FALSE\n", c14KeyInvs)
 	r := tlc.Run(tlc.Options{Module: "MC_PaillierKeyGen", Cfg: cfg, Workers: workers, Heap: "2g", Timeout: timeout,
 		Files: map[string]string{"MC_PaillierKeyGen.tla": wrap}})
 	if r.Err != nil {
-		return r, nil, fmt.Errorf("PaillierKeyGen.tla: %v", r.Err)
+		return r, nil, nil, fmt.Errorf("PaillierKeyGen.tla: %v", r.Err)
 	}
 	if !r.OK {
-		return r, nil, fmt.Errorf("PaillierKeyGen.tla violates %s:\n%s", r.Violated, r.ErrorTrace(2000))
+		return r, nil, nil, fmt.Errorf("PaillierKeyGen.tla violates %s:\n%s", r.Violated, r.ErrorTrace(2000))
 	}
 	feas := map[int][2]int{}
 	for _, m := range reC14KeyGen.FindAllStringSubmatch(r.Output, -1) {
@@ -105,10 +115,33 @@ func c14RunKeyGenMC(bits []int, workers int, timeout time.Duration) (tlc.Result,
 	}
 	for _, b := range bits {
 		if _, ok := feas[b]; !ok {
-			return r, nil, fmt.Errorf("PaillierKeyGen.tla printed no KEYGEN line for %d bits", b)
+			return r, nil, nil, fmt.Errorf("PaillierKeyGen.tla printed no KEYGEN line for %d bits", b)
 		}
 	}
-	return r, feas, nil
+	byClass := map[int]*c14SizeClass{}
+	rows := 0
+	for _, m := range reC14KeyClass.FindAllStringSubmatch(r.Output, -1) {
+		c, _ := strconv.Atoi(m[1])
+		tb, _ := strconv.Atoi(m[2])
+		b, _ := strconv.Atoi(m[3])
+		if byClass[c] == nil {
+			byClass[c] = &c14SizeClass{Class: c, TopBits: tb}
+		}
+		byClass[c].Sizes = append(byClass[c].Sizes, b)
+		rows++
+	}
+	var classes []c14SizeClass
+	for c := 0; c < 8; c++ {
+		if byClass[c] == nil {
+			return r, nil, nil, fmt.Errorf("PaillierKeyGen.tla printed no KEYCLASS row for residue class %d", c)
+		}
+		sort.Ints(byClass[c].Sizes)
+		classes = append(classes, *byClass[c])
+	}
+	if rows != len(plan) {
+		return r, nil, nil, fmt.Errorf("PaillierKeyGen.tla printed %d KEYCLASS rows for %d plan sizes", rows, len(plan))
+	}
+	return r, feas, classes, nil
 }
 
 type c14TraceVerdict struct {
@@ -116,6 +149,8 @@ type c14TraceVerdict struct {
 	Lines    int
 	SelfRej  int // in-run self-test: corrupted copies rejected ...
 	SelfN    int // ... out of
+	Drift    int // keys: lines explained at the level of the property but not by the generator model (top two bits)
+	DriftAt  int // first such line (1-based)
 	Accepted bool
 	FailLine int // 1-based, 0 unknown
 	FailText string
@@ -124,6 +159,7 @@ type c14TraceVerdict struct {
 
 // c14Validate runs a trace module over the lines.
 var reC14Self = regexp.MustCompile(`<<"SELFTEST", (\d+), (\d+)>>`)
+var reC14Drift = regexp.MustCompile(`<<"DRIFT", (\d+), (\d+)>>`)
 
 func c14WriteLines(lines []c14Line) (path string, text []string, err error) {
 	tmpBase := os.Getenv("VERIF_TMP")
@@ -191,6 +227,10 @@ func c14Validate(label, module, wrapper, cfg string, lines, bad []c14Line, timeo
 		v.SelfRej, _ = strconv.Atoi(m[1])
 		v.SelfN, _ = strconv.Atoi(m[2])
 	}
+	if m := reC14Drift.FindStringSubmatch(r.Output); m != nil {
+		v.Drift, _ = strconv.Atoi(m[1])
+		v.DriftAt, _ = strconv.Atoi(m[2])
+	}
 	if r.HW == len(lines) && (v.SelfN != len(bad) || v.SelfRej != v.SelfN) {
 		return v, fmt.Errorf("%s: self-test failed: TLC explained %d of the %d corrupted copies of logged calls (%d handed over)", label, v.SelfN-v.SelfRej, v.SelfN, len(bad))
 	}
@@ -214,8 +254,8 @@ func c14ValidatePaillier(label string, p, q int64, lines, bad []c14Line, timeout
 }
 
 func c14ValidateKeyGen(label string, bits []int, lines, bad []c14Line, timeout time.Duration) (c14TraceVerdict, error) {
-	wrap := fmt.Sprintf("---- MODULE MC_PaillierKeyGen_Trace ----\nEXTENDS PaillierKeyGen_Trace\nBitsVal == %s\n====\n", c14BitsSet(bits))
-	cfg := "SPECIFICATION TraceSpec\nCONSTANTS\n  BitsSet <- BitsVal\nINVARIANTS TraceInv\nCONSTRAINT HighWater\nPOSTCONDITION TraceAccepted\nCHECK_DEADLOCK FALSE\n"
+	wrap := fmt.Sprintf("---- MODULE MC_PaillierKeyGen_Trace ----\nEXTENDS PaillierKeyGen_Trace\nBitsVal == %s\nPlanVal == {16, 18, 20, 22, 24, 26, 28, 30}\n====\n", c14BitsSet(bits))
+	cfg := "SPECIFICATION TraceSpec\nCONSTANTS\n  BitsSet <- BitsVal\n  PlanSizes <- PlanVal\nINVARIANTS TraceInv\nCONSTRAINT HighWater\nPOSTCONDITION TraceAccepted\nCHECK_DEADLOCK FALSE\n"
 	return c14Validate(label, "PaillierKeyGen_Trace", wrap, cfg, lines, bad, timeout)
 }
 
@@ -306,4 +346,167 @@ func c14Abs(x int) int {
 		return -x
 	}
 	return x
+}
+
+// ------------------------------------------------------------------ histories of key objects (spec/PaillierHist.tla)
+
+const c14HistInvs = "TypeOK AccCarries DecCorrect NoRefusal"
+
+// the two toy keys of the history model
+var c14HistToy = [4]int64{3, 5, 5, 7}
+
+func c14TLAStrSet(xs []string) string {
+	q := make([]string, len(xs))
+	for i, x := range xs {
+		q[i] = strconv.Quote(x)
+	}
+	return "{" + strings.Join(q, ", ") + "}"
+}
+
+func c14HistWrapper(name, base, mcs, variants, extra string) string {
+	return fmt.Sprintf("---- MODULE %s ----\nEXTENDS %s\nModesVal == %s\nMCsVal == %s\nVariantsVal == %s\n%s====\n",
+		name, base, c14TLAStrSet(c14HistModes), mcs, variants, extra)
+}
+
+func c14HistConstants(xsel string, maxOps int, record, twoPhase bool) string {
+	return fmt.Sprintf("CONSTANTS\n  P1 = %d\n  Q1 = %d\n  P2 = %d\n  Q2 = %d\n  Modes <- ModesVal\n  MCs <- MCsVal\n  XSel = %q\n  MaxOps = %d\n  Variants <- VariantsVal\n  Record = %s\n  TwoPhase = %s\n",
+		c14HistToy[0], c14HistToy[1], c14HistToy[2], c14HistToy[3], xsel, maxOps, c14Bool(record), c14Bool(twoPhase))
+}
+
+// c14RunHistMC model-checks PaillierHist.tla (variant "code") exhaustively: every history over the two toy keys.
+func c14RunHistMC(wide bool, workers int, timeout time.Duration) (tlc.Result, string, error) {
+	c14SemTLC <- struct{}{}
+	defer func() { <-c14SemTLC }()
+	mcs, xsel, label := `{"one", "max"}`, "some", "plaintexts / scalars {1, N-1}, one randomiser"
+	if wide {
+		mcs, xsel, label = `{"zero", "one", "mid", "max"}`, "few", "plaintexts / scalars {0, 1, N/2, N-1}, three randomisers"
+	}
+	cfg := "SPECIFICATION Spec\n" + c14HistConstants(xsel, 0, false, false) + "INVARIANTS " + c14HistInvs + "\nCHECK_DEADLOCK FALSE\n"
+	r := tlc.Run(tlc.Options{Module: "MC_PaillierHist", Cfg: cfg, Workers: workers, Heap: "2g", Timeout: timeout,
+		Files: map[string]string{"MC_PaillierHist.tla": c14HistWrapper("MC_PaillierHist", "PaillierHist", mcs, `{"code"}`, "")}})
+	if r.Err != nil {
+		return r, label, fmt.Errorf("PaillierHist.tla: %v", r.Err)
+	}
+	if !r.OK {
+		return r, label, fmt.Errorf("PaillierHist.tla violates %s:\n%s", r.Violated, r.ErrorTrace(2000))
+	}
+	return r, label, nil
+}
+
+// c14RunHistVariant: self-test of the model - a variant with unexported state that survives a reload must violate
+// one of the invariants.
+func c14RunHistVariant(variant string, timeout time.Duration) (tlc.Result, error) {
+	c14SemTLC <- struct{}{}
+	defer func() { <-c14SemTLC }()
+	cfg := "SPECIFICATION Spec\n" + c14HistConstants("some", 0, false, false) + "INVARIANTS " + c14HistInvs + "\nCHECK_DEADLOCK FALSE\n"
+	name := "MCV_PaillierHist"
+	r := tlc.Run(tlc.Options{Module: name, Cfg: cfg, Workers: 1, Heap: "2g", Timeout: timeout,
+		Files: map[string]string{name + ".tla": c14HistWrapper(name, "PaillierHist", `{"one", "max"}`, c14TLAStrSet([]string{variant}), "")}})
+	if r.Err != nil {
+		return r, fmt.Errorf("PaillierHist.tla variant %s: %v", variant, r.Err)
+	}
+	if r.OK || r.Violated == "" || r.Violated == "TypeOK" {
+		return r, fmt.Errorf("self-test: PaillierHist.tla with the defective variant %q does not violate AccCarries / DecCorrect / NoRefusal (violated: %q)", variant, r.Violated)
+	}
+	return r, nil
+}
+
+// c14HistGenerate lets TLC print the directed catalogue and num random walks of maxOps operations.
+func c14HistGenerate(num, maxOps int, seed int64, timeout time.Duration) (directed, walks [][]c14HistOp, r tlc.Result, err error) {
+	c14SemTLC <- struct{}{}
+	defer func() { <-c14SemTLC }()
+	name := "MCG_PaillierHist"
+	extra := "ASSUME Directed = DirectedLegal\nASSUME \\A h \\in Directed : PrintT(<<\"DIRECTED\", ToJson(h)>>)\n"
+	cfg := "SPECIFICATION Spec\n" + c14HistConstants("some", maxOps, true, true) + "INVARIANTS " + c14HistInvs + " Emit\nCHECK_DEADLOCK FALSE\n"
+	r = tlc.Run(tlc.Options{Module: name, Cfg: cfg, Workers: 1, Heap: "2g", Timeout: timeout,
+		Args:  []string{"-simulate", fmt.Sprintf("num=%d", num), "-depth", fmt.Sprint(2*maxOps + 2), "-seed", fmt.Sprint(seed)},
+		Files: map[string]string{name + ".tla": c14HistWrapper(name, "PaillierHist", `{"zero", "one", "mid", "max"}`, `{"code"}`, extra)}})
+	if r.Err != nil {
+		return nil, nil, r, fmt.Errorf("PaillierHist.tla generator: %v", r.Err)
+	}
+	if !r.OK {
+		return nil, nil, r, fmt.Errorf("PaillierHist.tla generator violates %s", r.Violated)
+	}
+	parse := func(tag string) ([][]c14HistOp, error) {
+		rows, err := c17Printed(r.Output, tag)
+		if err != nil {
+			return nil, err
+		}
+		var out [][]c14HistOp
+		for _, row := range rows {
+			var ops []c14HistOp
+			if err := json.Unmarshal([]byte(row), &ops); err != nil {
+				return nil, fmt.Errorf("cannot parse a history printed by TLC: %v", err)
+			}
+			out = append(out, ops)
+		}
+		return out, nil
+	}
+	if directed, err = parse("DIRECTED"); err != nil {
+		return nil, nil, r, err
+	}
+	if walks, err = parse("BEHAVIOUR"); err != nil {
+		return nil, nil, r, err
+	}
+	// TLC prints a set in its own order; make the catalogue order independent of it
+	sort.Slice(directed, func(i, j int) bool { return fmt.Sprint(directed[i]) < fmt.Sprint(directed[j]) })
+	for _, w := range walks {
+		if len(w) != maxOps {
+			return nil, nil, r, fmt.Errorf("TLC printed a walk of %d operations, expected %d", len(w), maxOps)
+		}
+	}
+	if len(directed) == 0 || len(walks) == 0 {
+		return nil, nil, r, fmt.Errorf("TLC printed %d directed histories and %d walks", len(directed), len(walks))
+	}
+	return directed, walks, r, nil
+}
+
+// c14ValidateHist: PaillierHist_Trace.tla must explain every line of the toy replays. If stopAt > 0 the file ends
+// with a deliberately corrupted history whose altered line is line stopAt: TLC must consume exactly the stopAt-1
+// lines before it (self-test of the binding, in the same run).
+func c14ValidateHist(label string, lines []c14Line, stopAt int, timeout time.Duration) (c14TraceVerdict, error) {
+	v := c14TraceVerdict{Label: label, Lines: len(lines)}
+	if len(lines) == 0 {
+		v.Accepted = true
+		return v, nil
+	}
+	abs, text, err := c14WriteLines(lines)
+	if err != nil {
+		return v, err
+	}
+	defer os.Remove(abs)
+	name := "MCT_PaillierHist_Trace"
+	cfg := "SPECIFICATION TraceSpec\n" + c14HistConstants("some", 0, false, false) + "INVARIANTS TraceInv\nCONSTRAINT HighWater\nPOSTCONDITION TraceAccepted\nCHECK_DEADLOCK FALSE\n"
+	c14SemTLC <- struct{}{}
+	r := tlc.Run(tlc.Options{Module: name, Cfg: cfg, Env: map[string]string{"TRACE": abs}, Workers: 1, Heap: "2g", Timeout: timeout,
+		Files: map[string]string{name + ".tla": c14HistWrapper(name, "PaillierHist_Trace", `{"zero", "one", "mid", "max"}`, `{"code"}`, "")}})
+	<-c14SemTLC
+	v.Res = r
+	if r.Err != nil {
+		return v, fmt.Errorf("%s: %v", label, r.Err)
+	}
+	want := len(lines)
+	if stopAt > 0 {
+		want = stopAt - 1
+		v.Lines = stopAt - 1
+		v.SelfN = 1
+	}
+	switch {
+	case stopAt == 0:
+		v.Accepted = r.OK && r.HW == want
+	case r.HW == want && r.Violated == "TraceAccepted":
+		v.Accepted, v.SelfRej = true, 1
+	case r.HW >= stopAt:
+		return v, fmt.Errorf("%s: self-test failed: TLC explained the corrupted line %d (%s)", label, stopAt, text[stopAt-1])
+	}
+	if !v.Accepted {
+		line := r.HW + 1
+		if r.Violated != "" && r.Violated != "TraceAccepted" {
+			line = r.HW
+		}
+		if line >= 1 && line <= len(lines) {
+			v.FailLine, v.FailText = line, text[line-1]
+		}
+	}
+	return v, nil
 }
